@@ -352,7 +352,7 @@ def desugar(text, rules, counts):
             text, c = _r_enum(text)
         elif r == "R-EXTMAP":
             text, c = _r_extmap(text)
-        elif r == "R-QCLOSURE":
+        elif r in ("R-QCLOSURE", "R-UNDERSCORE"):
             text, c = _r_qclosure(text)
         else:
             raise SpliceError("unknown desugaring " + r)
@@ -521,6 +521,13 @@ def _r_extmap(text):
 
 
 def _r_qclosure(text):
-    return text, 0
+    """R-UNDERSCORE: closure parameter `|_|` -> `|_vx|` (Verus accepts only variables as closure parameters)."""
+    m = mask(text)
+    n = 0
+    out = text
+    for mt in reversed(list(re.finditer(r"\|\s*_\s*\|", m))):
+        out = out[:mt.start()] + "|_vx|" + out[mt.end():]
+        n += 1
+    return out, n
 
 
